@@ -68,6 +68,13 @@ def block_of(node: ast.AST, parents: Dict[int, ast.AST]) -> Tuple[List[ast.stmt]
     raise AnalysisError("statement block not found")
 
 
+def iterates(it: ast.AST, what: str) -> bool:
+    """`for x in <what>` directly or over a snapshot / reversed view of it."""
+    if unparse(it) == what:
+        return True
+    return isinstance(it, ast.Call) and unparse(it.func) in ("list", "tuple", "reversed", "sorted") and len(it.args) >= 1 and unparse(it.args[0]) == what
+
+
 def is_call_to(n: ast.AST, name: str) -> bool:
     return isinstance(n, ast.Call) and unparse(n.func) == name
 
@@ -118,7 +125,7 @@ def run(rep: Report, prog: Program, tier: str) -> None:
                 from_sent = False
                 while id(cur) in pm:
                     cur = pm[id(cur)]
-                    if isinstance(cur, ast.For) and unparse(cur.target) == var and unparse(cur.iter) == "self._sent_queue":
+                    if isinstance(cur, ast.For) and unparse(cur.target) == var and iterates(cur.iter, "self._sent_queue"):
                         from_sent = True
                 if not from_sent:
                     acked_true_ok = False
@@ -192,7 +199,7 @@ def run(rep: Report, prog: Program, tier: str) -> None:
                 rep.fail(mk_finding(prog, PROP, "C02-FS", sack, n, "a gap-acked chunk is marked acked without a guarded decrease of the flight size in the same block", construct="gap ack pairing"))
     # (d) T3 expiry leaves nothing counted
     t3e = meth("_t3_expired")
-    marks = [n for n in walk_no_nested(t3e.node) if isinstance(n, ast.For) and unparse(n.iter) == "self._sent_queue"
+    marks = [n for n in walk_no_nested(t3e.node) if isinstance(n, ast.For) and iterates(n.iter, "self._sent_queue")
              and any(isinstance(x, ast.Assign) and unparse(x.targets[0]).endswith("._retransmit") and getattr(x.value, "value", None) is True for x in ast.walk(n))]
     if len(marks) != 1:
         raise AnalysisError("_t3_expired: loop marking the outstanding chunks for retransmission not found")
